@@ -32,6 +32,8 @@ pub struct Outcome {
     /// how many evaluations this case stands for (default 1)
     pub evals: u64,
     pub sample: Option<J>,
+    /// harness/oracle defect detected (never a verdict about zlib-rs): worker exits 2
+    pub internal: Option<String>,
 }
 
 impl Outcome {
@@ -219,6 +221,9 @@ pub fn run_property(prop: &Property, ctx: &mut Ctx, journal: &Journal, only_phas
                 let res = runner.run(&strat, |tape| {
                     journal.record(pi, &tape);
                     let o = f(&tape, ctx);
+                    if let Some(m) = &o.internal {
+                        internal_error(m);
+                    }
                     let mut o = ctx.settle(o);
                     if let Some(fl) = &o.fail {
                         *failed.borrow_mut() = true;
@@ -263,6 +268,9 @@ pub fn run_property(prop: &Property, ctx: &mut Ctx, journal: &Journal, only_phas
                             }
                             Some(o) => o,
                         };
+                        if let Some(m) = &o.internal {
+                            internal_error(m);
+                        }
                         let mut o = ctx.settle(o);
                         n += 1;
                         if let Some(x) = o.fail.take() {
@@ -298,6 +306,13 @@ pub fn replay_case(prop: &Property, ctx: &Ctx, phase: usize, tape: &[u8]) -> Out
         Phase::Prop { f, .. } => ctx.settle(f(tape, ctx)),
         Phase::Enum { replay, .. } => ctx.settle(replay(tape, ctx)),
     }
+}
+
+/// an oracle/harness defect: leave the journal in place (the driver keeps it) and exit 2
+pub fn internal_error(m: &str) -> ! {
+    eprintln!("INTERNAL-ERROR (oracle or harness defect, not a verdict): {}", m);
+    println!("INTERNAL-ERROR {}", m);
+    std::process::exit(2)
 }
 
 fn fnv(s: &str) -> u64 {
